@@ -144,7 +144,10 @@ class Registry:
                 if c.receiver is not None and recv_cls in _as_tuple(c.receiver):
                     return c
         for c in cands:
-            if c.receiver is None or recv_cls is None:
+            if c.receiver is None:
+                return c
+        for c in cands:
+            if recv_cls is None:
                 return c
         return None
 
